@@ -8,6 +8,10 @@ References:
 - relooper
   https://github.com/kripken/Relooper/blob/master/paper.pdf
 
+- Beyond Relooper: recursive translation of unstructured control flow to
+  structured control flow, Norman Ramsey, ICFP 2022
+  https://doi.org/10.1145/3547621
+
 [Cifuentes1998]_
 
 [Baker1977]_
@@ -19,15 +23,18 @@ They might be the join point between dominator and post dominator nodes.
 The algorithm for finding a program structure is as following:
 
 - Create a control flow graph from the ir-function.
-- Find loops in the control flow graph
-- Now start with entry node, and check if this node is:
+- Find loop headers and merge nodes in the control flow graph
+- Now start with entry node, and walk down the dominator tree. Check if
+  the node is:
    - a start of a loop
+   - the dominator of merge nodes, which must be placed after it
    - an if statement with two outgoing control flow paths
    - straight line code
 """
 
 import logging
-from .cfg import ir_function_to_graph, Loop
+from collections import defaultdict
+from .cfg import ir_function_to_graph
 
 # from ..utils.collections import OrderedSet, OrderedDict
 
@@ -74,6 +81,10 @@ def print_shape(shape, indent=0, file=None):
         print("   " * indent + "loop", file=file)
         print_shape(shape.body, indent=indent + 1, file=file)
         print("   " * indent + "end-loop", file=file)
+    elif isinstance(shape, BlockShape):
+        print("   " * indent + "block", file=file)
+        print_shape(shape.body, indent=indent + 1, file=file)
+        print("   " * indent + "end-block", file=file)
     elif shape is None:
         pass
     else:  # pragma: no cover
@@ -81,126 +92,181 @@ def print_shape(shape, indent=0, file=None):
 
 
 class StructureDetector:
+    """Find the structure of a reducible control flow graph.
+
+    This follows "Beyond Relooper" by Norman Ramsey:
+
+    - Number the nodes in reverse post order. An edge to a node with a lower
+      (or the same) number is a back edge, its target is a loop header.
+      When such a target does not dominate the source of the edge, the
+      graph is irreducible and we give up.
+    - The code of a node is followed by the code of the nodes it immediately
+      dominates. A node with a single forward incoming edge is placed at
+      that edge. A node with more forward incoming edges (a merge node) is
+      placed behind a block shape. This block contains the code of the
+      immediate dominator, and of the merge nodes which come earlier in
+      reverse post order. A branch to the merge node breaks from this block.
+    - A loop header is wrapped in a loop shape, a back edge continues it.
+    """
+
     logger = logging.getLogger("structure-detector")
 
     def detect(self, cfg):
         """Find structure in control flow graph"""
         self.cfg = cfg
-        # self.cfg.calculate_dominator_tree()
+        self.number_nodes()
 
-        # Loop info:
-        self.loops = self.cfg.calculate_loops()
-        self.loop_headers = {loop.header: loop for loop in self.loops}
+        # Classify the nodes:
+        self.loop_headers = set()
+        self.merge_nodes = set()
+        self.dominator_tree = defaultdict(list)
+        for node in self.rpo_number:
+            immediate_dominator = self.cfg.get_immediate_dominator(node)
+            if immediate_dominator is not None:
+                self.dominator_tree[immediate_dominator].append(node)
 
-        self.marked = {self.cfg.exit_node}
-        self.follow_stack = [self.cfg.exit_node]
-        top_loop = Loop(
-            header=self.cfg.entry_node,
-            rest=(self.cfg.nodes - {self.cfg.entry_node}),
+            forward_edges = 0
+            for predecessor in node.predecessors:
+                if predecessor not in self.rpo_number:
+                    continue  # unreachable code
+                if self.is_back_edge(predecessor, node):
+                    if not self.cfg.dominates(node, predecessor):
+                        raise ValueError(
+                            "Irreducible control flow: the loop from"
+                            + f" {node} to {predecessor} can be entered"
+                            + f" without passing {node}"
+                        )
+                    self.loop_headers.add(node)
+                else:
+                    forward_edges += 1
+            if forward_edges > 1:
+                self.merge_nodes.add(node)
+
+        return self.do_tree(self.cfg.entry_node, [])
+
+    def number_nodes(self):
+        """Number the nodes reachable from entry in reverse post order."""
+        post_order = []
+        entry = self.cfg.entry_node
+        visited = {entry}
+        worklist = [(entry, iter(self.successors(entry)))]
+        while worklist:
+            node, successors = worklist[-1]
+            for successor in successors:
+                if successor not in visited:
+                    visited.add(successor)
+                    worklist.append(
+                        (successor, iter(self.successors(successor)))
+                    )
+                    break
+            else:
+                post_order.append(node)
+                worklist.pop()
+        self.rpo_number = {n: i for i, n in enumerate(reversed(post_order))}
+
+    def successors(self, node):
+        """The successors of a node (yes before no), without the exit node."""
+        if len(node.successors) == 2:
+            return [node.yes, node.no]
+        else:
+            return [s for s in node.successors if s is not self.cfg.exit_node]
+
+    def is_back_edge(self, source, target):
+        return self.rpo_number[target] <= self.rpo_number[source]
+
+    def do_tree(self, node, context):
+        """Make the shape for a node and all nodes dominated by it.
+
+        The context is the list of enclosing loop and block shapes, outermost
+        first: ('loop', header node) or ('block', node that follows it)
+        """
+        merge_children = self.get_merge_children(node)
+        if node in self.loop_headers:
+            self.logger.debug("--> Loop: %s", node)
+            context = context + [("loop", node)]
+            shape = LoopShape(self.node_within(node, merge_children, context))
+            self.logger.debug("--> end loop")
+        else:
+            shape = self.node_within(node, merge_children, context)
+        return shape
+
+    def get_merge_children(self, node):
+        """Get the merge nodes which must follow a node, last one first"""
+        merge_children = [
+            n for n in self.dominator_tree[node] if n in self.merge_nodes
+        ]
+        merge_children.sort(key=lambda n: self.rpo_number[n], reverse=True)
+        return merge_children
+
+    def is_plain(self, node):
+        """Test if a node is a piece of straight line code."""
+        return not (
+            node in self.loop_headers
+            or node in self.merge_nodes
+            or self.get_merge_children(node)
+            or len(self.successors(node)) != 1
         )
 
-        # Stack of loops with follow nodes
-        self.loop_stack = [(top_loop, None)]
-        self.shapes = []
-        shape = self.make_shape(self.cfg.entry_node)
-        return shape
+    def node_within(self, node, merge_children, context):
+        """Make the shape for a node, followed by the given merge nodes"""
+        if merge_children:
+            follow_up = merge_children[0]
+            inner_context = context + [("block", follow_up)]
+            s1 = self.node_within(node, merge_children[1:], inner_context)
+            s2 = self.do_tree(follow_up, context)
+            return SequenceShape([BlockShape(s1), s2])
 
-    def make_shape(self, entry):
-        """Given a set of blocks and an entry block, determine the shape"""
-
-        # Decide between loop, if-else or straight line code:
-        if entry is self.cfg.exit_node:
-            shape = None
-        elif self.is_inactive_header(entry):
-            # Loop found!
-            loop = self.loop_headers[entry]
-            follow_up = self.follows_loop(loop)
-            # assert follow_up
-            self.loop_stack.append((loop, follow_up))
-            self.marked.add(entry)
-            self.marked.add(follow_up)
-
-            self.logger.debug("--> Loop: %s break to %s", entry, follow_up)
-            s1 = self.make_shape(entry)
-            self.logger.debug("--> end loop")
-
-            # Cleanup stacks:
-            self.loop_stack.pop(-1)
-
-            # Create shape:
-            shape = LoopShape(s1)
-            if follow_up:
-                s3 = self.make_shape(follow_up)
-                shape = SequenceShape([shape, s3])
-        elif len(entry.successors) == 1:
+        successors = self.successors(node)
+        if len(successors) == 0:
+            # Return from the function
+            self.logger.debug("--> code: %s", node)
+            shape = BasicShape(node)
+        elif len(successors) == 1:
             # Simple straight ahead:
-            self.logger.debug("--> code: %s", entry)
-            (follow_up,) = entry.successors
-            shape = BasicShape(entry)
-            s2 = self.test(follow_up)
-            if s2:
-                shape = SequenceShape([shape, s2])
-        elif len(entry.successors) == 2:
+            self.logger.debug("--> code: %s", node)
+            shapes = [BasicShape(node)]
+            target = successors[0]
+            # Follow a chain of nodes here, to limit the recursion depth:
+            while self.is_plain(target):
+                self.logger.debug("--> code: %s", target)
+                shapes.append(BasicShape(target))
+                node = target
+                target = self.successors(node)[0]
+            shapes.append(self.do_branch(node, target, context))
+            shape = SequenceShape(shapes)
+        elif len(successors) == 2:
             # If statement!
-            merger = self.cfg.get_immediate_post_dominator(entry)
-            if merger in self.loop_stack[-1][0].rest:
-                follow_up = merger
-                self.marked.add(follow_up)
-            else:
-                follow_up = None
-            yes, no = entry.yes, entry.no  # TODO: major hack for yes and no
-            self.logger.debug("--> code %s", entry)
-            self.logger.debug("--> if (based on) %s", entry)
-            yes_shape = self.test(yes)
+            yes, no = successors
+            self.logger.debug("--> if (based on) %s", node)
+            yes_shape = self.do_branch(node, yes, context)
             self.logger.debug("--> else")
-            no_shape = self.test(no)
-            self.logger.debug("--> end if %s", entry)
-            shape = IfShape(entry, yes_shape, no_shape)
-            if follow_up:  # follow_up in same_loop:
-                s2 = self.make_shape(follow_up)
-                shape = SequenceShape([shape, s2])
+            no_shape = self.do_branch(node, no, context)
+            self.logger.debug("--> end if %s", node)
+            shape = IfShape(node, yes_shape, no_shape)
         else:  # pragma: no cover
-            raise NotImplementedError(str(entry))
-
+            raise NotImplementedError(str(node))
         return shape
 
-    def test(self, node):
-        """Check if a node is marked, or else shape it!"""
-        if node in self.marked:
-            # Break or continue!
-            if node is self.loop_stack[-1][0].header:
-                return ContinueShape(0)
-            elif node is self.loop_stack[-1][1]:
-                return BreakShape(0)
-            else:
-                return None
+    def do_branch(self, source, target, context):
+        """Make the shape to go from source to target"""
+        if self.is_back_edge(source, target):
+            return ContinueShape(self.get_level(("loop", target), context))
+        elif target in self.merge_nodes:
+            return BreakShape(self.get_level(("block", target), context))
         else:
-            return self.make_shape(node)
+            # This is the only way to get there, so place it here:
+            return self.do_tree(target, context)
 
-    def is_inactive_header(self, block):
-        if block in self.loop_headers:
-            active_headers = {loop[0].header for loop in self.loop_stack}
-            return block not in active_headers
-        else:
-            return False
-
-    def follows_loop(self, loop):
-        """Determine the node that follows this loop"""
-        reachable_outside_loop = set()
-        all_loop_nodes = [loop.header] + loop.rest
-        for node in all_loop_nodes:
-            for s in node.successors:
-                if s not in all_loop_nodes:
-                    if not self.cfg.strictly_dominates(loop.header, s):
-                        reachable_outside_loop.add(s)
-
-        if reachable_outside_loop:
-            if len(reachable_outside_loop) != 1:
-                reachables = ", ".join(map(str, reachable_outside_loop))
-                raise ValueError(
-                    f"Loop followed by more then one node: {reachables}"
-                )
-            return list(reachable_outside_loop)[0]
+    @staticmethod
+    def get_level(shape, context):
+        """Count the enclosing shapes of the same kind inside shape."""
+        level = 0
+        for enclosing_shape in reversed(context):
+            if enclosing_shape == shape:
+                return level
+            elif enclosing_shape[0] == shape[0]:
+                level += 1
+        raise RuntimeError(f"{shape} not found")  # pragma: no cover
 
 
 class Relooper:
@@ -224,6 +290,8 @@ class BasicShape(Shape):
 
 
 class BreakShape(Shape):
+    """Leave an enclosing block shape, level 0 is the innermost block"""
+
     def __init__(self, level):
         super().__init__()
         self.level = level
@@ -233,6 +301,8 @@ class BreakShape(Shape):
 
 
 class ContinueShape(Shape):
+    """Restart an enclosing loop shape, level 0 is the innermost loop"""
+
     def __init__(self, level):
         super().__init__()
         self.level = level
@@ -250,8 +320,26 @@ class SequenceShape(Shape):
         return f"Sequence of {len(self.shapes)}"
 
 
+class BlockShape(Shape):
+    """A shape which can be left with a break shape.
+
+    The end of the body is not reached otherwise.
+    """
+
+    def __init__(self, body):
+        super().__init__()
+        self.body = body
+
+    def __repr__(self):
+        return "Block-shape"
+
+
 class LoopShape(Shape):
-    """Loop shape"""
+    """Loop shape, the body is repeated by a continue shape.
+
+    The loop is left by a break from an enclosing block (or by a return), the
+    end of the body is not reached.
+    """
 
     def __init__(self, body):
         super().__init__()
